@@ -417,8 +417,15 @@ async fn run_matrix(a: &Args, m: &mut mon::Mon) {
         if a.prop == "C08" {
             matrix::run_c08(&mut w, m, &mut r, &t).await;
         } else {
+            // the wipe-out (killed-bank cells) comes first in every other world so that it is
+            // reached even when the machine is loaded
+            let first = world_no % 2 == 1;
+            if first {
+                let lender = t.liquidator0;
+                scen::wipeout(&mut w, m, &mut r, t.g0, lender).await;
+            }
             matrix::run_c14(&mut w, m, &mut r, &t).await;
-            if t0.elapsed() < a.budget {
+            if !first && t0.elapsed() < a.budget {
                 let lender = t.liquidator0;
                 scen::wipeout(&mut w, m, &mut r, t.g0, lender).await;
             }
